@@ -123,7 +123,8 @@ def seq_case(nfields, mp_bits):
             ctx.prove(len(r.get_remainder()) == 0, "nothing-left-over")
     labels = ["roundtrip-" + k for k in KINDS] + ["so_far+remainder==whole", "nothing-left-over"]
     return Case("seq%d" % nfields, fn, labels, {"fields": nfields, "mpint_bits": mp_bits,
-                                                "string_len_max": 3, "int_ranges": "full 32/64 bit"})
+                                                "string_len_max": 3, "int_ranges": "full 32/64 bit"},
+                max_paths=20000 if nfields < 3 else 300000, wall_s=600 if nfields < 3 else 2400)
 
 
 def mpint_case(bits):
@@ -166,4 +167,4 @@ def inflate_case(maxlen):
 def cases(tier):
     if tier == "quick":
         return [seq_case(1, 72), seq_case(2, 40), mpint_case(136), inflate_case(9)]
-    return [seq_case(1, 136), seq_case(2, 72), seq_case(3, 40), mpint_case(264), mpint_case(136), inflate_case(17)]
+    return [seq_case(1, 136), seq_case(2, 72), seq_case(3, 24), mpint_case(264), mpint_case(136), inflate_case(17)]
